@@ -3,7 +3,7 @@ CONSTANTS
   AstOf <- MCAstOf
   FilesOf <- MCFilesOf
   Tier = "quick"
-SPECIFICATION MCSpec
+INIT MCInit
+NEXT Next
 INVARIANTS Conforms NoCrash TypeOK
-PROPERTY Terminates
 CHECK_DEADLOCK FALSE
